@@ -82,9 +82,13 @@ class C11(Prop):
                   "no panic, the root holds the list model's content after every step, it reads back through C10, and every Entry / Relation handle denotes the entry / alternative the abstract "
                   "reading says, positions shifted by inserts and removals in front of it (C11_handles_step, C11_handles_history, C11_handles_history_field, C11_handles_entry, C11_handles_relation); "
                   "the pre-fix code refutes it (C11_in_place_refuted, C11_in_place_relation_refuted). "
-                  "PARTIAL: C11_full is stated as a Definition; not proved: operands built by the builder, texts that parse without error but are not renderings of a wf_rfield, "
-                  "the connection of C10's content with this cone's `structure` on arbitrary layouts; in (4): operands obtained by parsing, operations through handles into an operand or to a node that has left the field; "
-                  "there the property is checked by the rel-edit stream and its list-model oracle on every run.")
+                  "(5) C11_full ITSELF (the property as stated in RelEditSpec.v) is a theorem, C11_full_theorem: from ANY text read without error whose accessors do not panic "
+                  "(structure = Ok; needed: C11_full_domain_witness), every in-range history of the twelve operations with well-formed operands built by Relation::new or RelationBuilder: "
+                  "no panic, the root holds exactly the list model's field, substitution variables keep their text, the printed text is read again without error to that same field — "
+                  "through C10's image theorem (every error-free text is the rendering of a liberal layout) and the liberal live layouts of model/RelLiveAll.v (the inside of a relation's parts is "
+                  "opaque to the edits); the single-step / history / re-read / handle theorems of that development are C11_all_*; one correction of the statement (not of the code): "
+                  "operand records with architectures or profiles but no qualifier are built with RelationBuilder (C11_builder_operand_witness). "
+                  "NOT PROVED (stream + oracle): parsed operands on liberal layouts (proved for Policy-shaped fields), operations through handles into an operand or to a node that has left the field.")
     level_note = ("Model: coq/model/RelEdit.v — the editing API of debian-control/src/lossless/relations.rs over a store of trees and "
                   "re-based handles (rowan 0.16.1 red layer as the code experiences it).")
     rule = ("rel-edit: the repo's own editing tests and one case per known defect; every history of length <= 2 (thorough 3 on fewer seeds) over 62 "
